@@ -13,7 +13,47 @@ var strRunes = []rune{'a', 'b', 'z', 'A', '0', ' ', '"', '\\', '/', 0, 1, 8, 9, 
 
 // NumberAtoms are number literals around every boundary of interest.
 var NumberAtoms = []string{"0", "-0", "1", "-1", "10", "42", "-17", "9007199254740991", "-9007199254740991", "9007199254740992", "-9007199254740992",
-	"9007199254740993", "18446744073709551616", "0.5", "-0.5", "1.5", "-1.5", "1.0", "0.0", "-0.0", "1e2", "1E2", "1e+2", "1E-2", "0e1", "-0e1", "1.5e3", "2.5E-3", "1e400", "100", "-100", "50", "1e0", "123456789", "0.1", "-0.25"}
+	"9007199254740993", "18446744073709551616", "0.5", "-0.5", "1.5", "-1.5", "1.0", "0.0", "-0.0", "1e2", "1E2", "1e+2", "1E-2", "0e1", "-0e1", "1.5e3", "2.5E-3", "1e400", "100", "-100", "50", "1e0", "123456789", "0.1", "-0.25",
+	"1e-05", "1e-0", "3E-01", "5e+00", "2e05", "1.5e-00", "-2E-007", "0e-0", "10e-01"}
+
+// RandNumberLit draws a literal from the whole JSON number grammar -?(0|[1-9][0-9]*)(\.[0-9]+)?([eE][+-]?[0-9]+)?,
+// including zeros after the exponent sign, trailing fraction zeros and zero mantissas.
+func RandNumberLit(r *Rand) string {
+	var sb strings.Builder
+	if r.Chance(0.4) {
+		sb.WriteByte('-')
+	}
+	digits := func(n int, lead bool) {
+		for i := 0; i < n; i++ {
+			d := byte('0' + r.Intn(10))
+			if r.Chance(0.35) {
+				d = '0'
+			}
+			if i == 0 && lead && d == '0' {
+				d = '1' + byte(r.Intn(9))
+			}
+			sb.WriteByte(d)
+		}
+	}
+	if r.Chance(0.3) {
+		sb.WriteByte('0')
+	} else {
+		digits(r.Range(1, 6), true)
+	}
+	if r.Chance(0.4) {
+		sb.WriteByte('.')
+		digits(r.Range(1, 4), false)
+	}
+	if r.Chance(0.6) {
+		sb.WriteByte("eE"[r.Intn(2)])
+		if r.Chance(0.7) {
+			sb.WriteByte("+-"[r.Intn(2)])
+		}
+		digits(r.Range(1, 3), false)
+	}
+	return sb.String()
+}
+
 
 // RandString produces a string over the interesting alphabet.
 func RandString(r *Rand, maxLen int) string {
@@ -53,6 +93,9 @@ func RandValue(r *Rand, o JSONOpts) *ref.Value {
 	case 1:
 		return ref.B(r.Chance(0.5))
 	case 2, 3:
+		if o.Numbers == nil && r.Chance(0.25) {
+			return ref.NumLit(RandNumberLit(r))
+		}
 		return ref.NumLit(Pick(r, nums))
 	case 4, 5:
 		return ref.S(RandString(r, o.StrLen))
